@@ -8,7 +8,8 @@
 //	V  valid-by-construction XGo programs (every sugar piece alone, then random combinations driven
 //	   by VERIF_SEED).  A compile success whose Go is rejected is a violation keyed finely:
 //	   success-bad-go:<judge>:<class> etc.
-//	M  a FIXED regression list of near-miss mutants and corpus packages, frozen in
+//	M  a FIXED regression list: a systematic family "one Go static rule violated per program"
+//	   (compa/rules.go), then near-miss mutants and corpus packages, frozen in
 //	   corpus/C06/stream_m.jsonl.gz (seed-independent; quick = its first N entries, thorough = all).
 //	   XGo's partial static checking (gogen) accepts many of these although Go rejects them; the
 //	   outcome of the unchanged tree is the committed baseline corpus/C06/known_bad_accepts.txt
@@ -231,6 +232,10 @@ func mkStream(total int) []mEntry {
 		}
 		seen[id] = true
 		out = append(out, mEntry{ID: id, Origin: origin, Files: fs})
+	}
+	// the systematic family first: one violated Go static rule per program
+	for _, it := range compa.RuleViolations() {
+		add(it.Files, it.Origin)
 	}
 	ci := 0
 	for i := 0; len(out) < total && i < total*3; i++ {
